@@ -401,6 +401,53 @@ func c05Roots(prefix []int, mode string, variant string) explore.Outcome {
 				viol = append(viol, V(k("leak-to-other-session"), "session B's stream carries %v", w.notes(1)))
 			}
 			obs.Add("roots=%s notes=%v", rootsOf(got), a)
+		case "duplicate-answer":
+			// A answers its request twice at the same time (a retrying or duplicating peer); afterwards the
+			// server asks B. Whatever became of the surplus answer, B's request is answered by B alone.
+			var got, gb *mcp.ListRootsResult
+			var gerr, eb error
+			done := &hx.Flag{}
+			vsched.Go("list-roots-A", func() { got, gerr = w.listRoots(context.Background(), 0); done.Set() })
+			seen := &hx.Flag{}
+			var rid string
+			vsched.Go("peer-A", func() {
+				id, ok := A.Await("roots/list", func(f string) bool { return strings.Contains(f, `"roots/list"`) })
+				if ok {
+					rid = string(rawIDOf(id))
+					seen.Set()
+					answer(A, rid, "file:///A")
+				}
+			})
+			vsched.Go("peer-A-again", func() {
+				seen.Wait("the duplicating peer waits for the request")
+				answer(A, rid, "file:///A-again")
+			})
+			vsched.Quiesce()
+			switch {
+			case !done.Get():
+				viol = append(viol, V(k("roots-hangs"), "ListRoots(A) did not return although A answered (twice); blocked: %v", vsched.LiveThreads()))
+			case gerr != nil || (rootsOf(got) != "file:///A" && rootsOf(got) != "file:///A-again"):
+				viol = append(viol, V(k("roots-fails"), "ListRoots(A), answered twice by A: %q %v", rootsOf(got), gerr))
+			}
+			if p := pendingOf(w.r); p != 0 {
+				viol = append(viol, V(k("pending-left"), "%d server->client requests are still pending after A's request was answered", p))
+			}
+			bdone := &hx.Flag{}
+			vsched.Go("list-roots-B", func() { gb, eb = w.listRoots(context.Background(), 1); bdone.Set() })
+			vsched.Go("peer-B", func() {
+				id, ok := B.Await("roots/list", func(f string) bool { return strings.Contains(f, `"roots/list"`) })
+				if ok {
+					answer(B, string(rawIDOf(id)), "file:///B")
+				}
+			})
+			vsched.Quiesce()
+			switch {
+			case !bdone.Get():
+				viol = append(viol, V(k("roots-hangs"), "ListRoots(B) after A's duplicated answer did not return; blocked: %v", vsched.LiveThreads()))
+			case eb != nil || rootsOf(gb) != "file:///B":
+				viol = append(viol, V(k("stale-answer-accepted"), "ListRoots for session B returned %q (%v): not the answer B posted (A had answered an earlier request twice)", rootsOf(gb), eb))
+			}
+			obs.Add("A=%s B=%s", rootsOf(got), rootsOf(gb))
 		case "two-sessions":
 			var ga, gb *mcp.ListRootsResult
 			var ea, eb error
@@ -821,7 +868,7 @@ func init() {
 			RegisterScenario(&Scenario{Name: fmt.Sprintf("c05/notify/%s/pad%d", mode, pad), Run: func(p []int, m []vsched.ChoicePoint) explore.Outcome { return c05Notify(p, mode, pad) },
 				Doc: "two sessions with open streams: Send(A,a1);Send(A,a2) || Broadcast || Filtered(only B)"})
 		}
-		for _, v := range []string{"foreign-answer", "two-sessions", "with-notification"} {
+		for _, v := range []string{"foreign-answer", "two-sessions", "with-notification", "duplicate-answer"} {
 			v := v
 			RegisterScenario(&Scenario{Name: fmt.Sprintf("c05/roots/%s/%s", mode, v), Run: func(p []int, m []vsched.ChoicePoint) explore.Outcome { return c05Roots(p, mode, v) },
 				Doc: "server-issued roots/list: " + v})
@@ -846,12 +893,12 @@ func init() {
 		Count: func(string) int { return 1 }, Eval: c05BFS})
 	RegisterCheck("C05", func(c *Ctx) {
 		c.Level = "exploration"
-		c.Rule = "DFS (sleep-set reduced, preemption bounded) of concurrent SendNotification/Broadcast/Filtered/ListRoots with client posts from two sessions (one adversarial: it forges an answer with a guessed request id); explicit-state BFS of send/broadcast/filtered accounting over open/close/delete histories against a reference model; enumeration of the ways a server-issued request ends; backlog scenarios (3, 101, 103 notifications to a session whose reader stalls and resumes: whatever was reported sent arrives once and in order)"
+		c.Rule = "DFS (sleep-set reduced, preemption bounded) of concurrent SendNotification/Broadcast/Filtered/ListRoots with client posts from two sessions (one adversarial: it forges an answer with a guessed request id; one duplicating: it answers its request twice at once, after which the other session is asked); explicit-state BFS of send/broadcast/filtered accounting over open/close/delete histories against a reference model; enumeration of the ways a server-issued request ends; backlog scenarios (3, 101, 103 notifications to a session whose reader stalls and resumes: whatever was reported sent arrives once and in order)"
 		c.Assume = append(c.Assume, "sessions are held by reference peers that read raw SSE frames", "virtual time for the 30 s request time-out", "memnet replaces net/http")
 		for _, mode := range []string{"ss", "ls"} {
 			c.DFSBoth(fmt.Sprintf("c05/notify/%s/pad0", mode), explore.Bounds{Preempt: c.Pick(2, 4), Dev: 1, MaxExec: c.Pick(6000, 300000)}, 1)
 			c.DFS(fmt.Sprintf("c05/notify/%s/pad65537", mode), explore.Bounds{Preempt: c.Pick(1, 2), Dev: 1, POR: true, MaxExec: c.Pick(3000, 100000)})
-			for _, v := range []string{"foreign-answer", "two-sessions", "with-notification"} {
+			for _, v := range []string{"foreign-answer", "two-sessions", "with-notification", "duplicate-answer"} {
 				c.DFSBoth(fmt.Sprintf("c05/roots/%s/%s", mode, v), explore.Bounds{Preempt: c.Pick(2, 3), Dev: 1, MaxExec: c.Pick(6000, 300000)}, 1)
 			}
 		}
